@@ -109,16 +109,23 @@ func runC04(p *core.Prog, r *core.Report) {
 		r.Fail("ANCHOR", "httpd roles", "-", fmt.Sprintf("route lookup=%v registration=%v", find != nil, parse != nil))
 		return
 	}
-	for _, c := range staticCalls(p).callees[find] {
-		if c.Signature.Recv() != nil && p.InModule(c) {
-			methodFn = c
+	// the method lookup: the function reachable from the route lookup that indexes the trie with a method tag
+	var findSet []*ssa.Function // the route lookup and its tail helpers (module callees that also return the route)
+	for f := range reachableFrom(p, find) {
+		if f.Parent() != nil || !p.InModule(f) {
+			continue
 		}
+		if f == find || (f.Signature.Results().Len() == 1 && types.Identical(f.Signature.Results().At(0).Type(), find.Signature.Results().At(0).Type())) {
+			findSet = append(findSet, f)
+		}
+	}
+	sort.Slice(findSet, func(i, j int) bool { return findSet[i].String() < findSet[j].String() })
+	isTail := map[*ssa.Function]bool{}
+	for _, f := range findSet {
+		isTail[f] = true
 	}
 	r.Anchor("route_lookup", fnName(find))
 	r.Anchor("registration", fnName(parse))
-	if methodFn != nil {
-		r.Anchor("method_lookup", fnName(methodFn))
-	}
 	node := p.Named("httpd", "treeNode")
 	var nextF, nameListF *types.Var
 	if node != nil {
@@ -143,6 +150,20 @@ func runC04(p *core.Prog, r *core.Report) {
 				methodTags = g
 			}
 		}
+	}
+
+	for f := range reachableFrom(p, find) {
+		if isTail[f] || f.Parent() != nil {
+			continue
+		}
+		for _, l := range lookupsOn(f, nextKey, methodTags) {
+			if strings.HasPrefix(l.kind, "methodtag:") {
+				methodFn = f
+			}
+		}
+	}
+	if methodFn != nil {
+		r.Anchor("method_lookup", fnName(methodFn))
 	}
 
 	// ---- R1: zones
@@ -336,30 +357,35 @@ func runC04(p *core.Prog, r *core.Report) {
 			ok := exact != nil && all != nil && len(exact.miss) > 0 && sx.MustPass(methodFn, nil, all.in, sx.Cut{Edges: exact.miss})
 			r.Check(ok, "C04-R3", "method: '*' handler only when the exact method missed", p.FuncPos(methodFn), "the MethodAll lookup is behind the exact lookup's miss edge", "the '*' method lookup is reachable without the exact method having missed (or one of the two lookups is gone): the exact-method handler loses its precedence / the '*' fallback is lost")
 		}
-		// a route is returned only after a successful method lookup
+		// a route is returned only after a successful method lookup (returns that delegate to a tail helper are covered there)
 		okRet, nRet := true, 0
-		for _, ret := range sx.Returns(find) {
-			rv := returnValue(ret, 0)
-			if sx.IsNilConst(rv) {
-				continue
-			}
-			nRet++
-			guarded := false
-			sx.Instrs(find, func(in ssa.Instruction) {
-				c, ok := in.(*ssa.Call)
-				if !ok || methodFn == nil || sx.StaticCallee(c) != methodFn {
-					return
+		for _, f := range findSet {
+			for _, ret := range sx.Returns(f) {
+				rv := returnValue(ret, 0)
+				if sx.IsNilConst(rv) {
+					continue
 				}
-				_, nonNil := sx.NilEdges(c)
-				if len(nonNil) > 0 && sx.MustPass(find, nil, ret, sx.Cut{Edges: nonNil}) {
-					guarded = true
+				if c, ok := rv.(*ssa.Call); ok && isTail[sx.StaticCallee(c)] {
+					continue
 				}
-			})
-			if !guarded {
-				okRet = false
+				nRet++
+				guarded := false
+				sx.Instrs(f, func(in ssa.Instruction) {
+					c, ok := in.(*ssa.Call)
+					if !ok || methodFn == nil || sx.StaticCallee(c) != methodFn {
+						return
+					}
+					_, nonNil := sx.NilEdges(c)
+					if len(nonNil) > 0 && sx.MustPass(f, nil, ret, sx.Cut{Edges: nonNil}) {
+						guarded = true
+					}
+				})
+				if !guarded {
+					okRet = false
+				}
 			}
 		}
-		r.Check(okRet && nRet > 0, "C04-R3", "a route is returned only after its method node was found", p.FuncPos(find), fmt.Sprintf("%d non-nil returns, each behind `methodNode != nil`", nRet), "a route is returned on a path where the method lookup may have failed (nil dereference or wrong route)")
+		r.Check(okRet && nRet > 0, "C04-R3", "a route is returned only after its method node was found", p.FuncPos(find), fmt.Sprintf("%d successful returns, each behind `methodNode != nil`", nRet), "a route is returned on a path where the method lookup may have failed (nil dereference or wrong route)")
 	}
 
 	// ---- R4
@@ -514,21 +540,27 @@ func runC04(p *core.Prog, r *core.Report) {
 		r.Check(okR && nR == 2, "C04-R5", "lookup: one captured value per :param/* transition", p.FuncPos(find), "each parameter hit appends exactly one value; nothing else writes the value list", whyR)
 		// successful returns assign K from the matched node
 		okK, nK := true, 0
-		for _, ret := range sx.Returns(find) {
-			if sx.IsNilConst(returnValue(ret, 0)) {
-				continue
-			}
-			nK++
-			cut := sx.Cut{Instrs: map[ssa.Instruction]bool{}}
-			sx.Instrs(find, func(in ssa.Instruction) {
-				if st, ok := in.(*ssa.Store); ok {
-					if fa, ok := st.Addr.(*ssa.FieldAddr); ok && sx.FieldOf(fa) == kF && sx.Origins(st.Val)["field:treeNode."+nameListF.Name()] {
-						cut.Instrs[in] = true
-					}
+		for _, f := range findSet {
+			for _, ret := range sx.Returns(f) {
+				rv := returnValue(ret, 0)
+				if sx.IsNilConst(rv) {
+					continue
 				}
-			})
-			if len(cut.Instrs) == 0 || !sx.MustPass(find, nil, ret, cut) {
-				okK = false
+				if c, ok := rv.(*ssa.Call); ok && isTail[sx.StaticCallee(c)] {
+					continue
+				}
+				nK++
+				cut := sx.Cut{Instrs: map[ssa.Instruction]bool{}}
+				sx.Instrs(f, func(in ssa.Instruction) {
+					if st, ok := in.(*ssa.Store); ok {
+						if fa, ok := st.Addr.(*ssa.FieldAddr); ok && sx.FieldOf(fa) == kF && sx.Origins(st.Val)["field:treeNode."+nameListF.Name()] {
+							cut.Instrs[in] = true
+						}
+					}
+				})
+				if len(cut.Instrs) == 0 || !sx.MustPass(f, nil, ret, cut) {
+					okK = false
+				}
 			}
 		}
 		r.Check(okK && nK > 0, "C04-R5", "lookup: every successful return installs the matched route's parameter names", p.FuncPos(find), fmt.Sprintf("%d successful returns, each after Params.K = node.paramNameList", nK), "a successful return does not assign Params.K from the matched node: names and values would not correspond")
